@@ -510,3 +510,126 @@ def to_items(block, begin=0):
         items.append(d)
         pos += 3
     return items
+
+
+# ------------------------------------------------------------------ hand-built specifications (SFS)
+OPC = {"ADD": "01", "MUL": "02", "SUB": "03", "DIV": "04", "LT": "10", "GT": "11", "EQ": "14", "ISZERO": "15",
+       "AND": "16", "OR": "17", "XOR": "18", "NOT": "19", "SHL": "1b", "SHR": "1c", "EXP": "0a", "ADDMOD": "08",
+       "MLOAD": "51", "SLOAD": "54", "MSTORE": "52", "SSTORE": "55", "MSTORE8": "53", "KECCAK256": "20",
+       "CALLER": "33", "CALLVALUE": "34", "TIMESTAMP": "42", "CALLDATALOAD": "35", "BALANCE": "31", "PUSH": "60",
+       "PUSH0": "5f", "ADDRESS": "30"}
+SFS_GAS = {"MUL": 5, "DIV": 5, "EXP": 60, "ADDMOD": 8, "SLOAD": 2100, "SSTORE": 5000, "KECCAK256": 30,
+           "CALLER": 2, "CALLVALUE": 2, "TIMESTAMP": 2, "BALANCE": 2600, "PUSH0": 2, "ADDRESS": 2}
+SFS_COMM = {"ADD", "MUL", "EQ", "AND", "OR", "XOR"}
+
+
+def gen_sfs(rnd, n_src=None, n_instr=None, wide=False):
+    """A well-formed hand-built specification in the front-end's JSON format (default push mode:
+    constants are PUSH instructions).  Returns the dictionary."""
+    n_src = rnd.randrange(0, 7 if not wide else 19) if n_src is None else n_src
+    n_instr = rnd.randrange(1, 13) if n_instr is None else n_instr
+    src = ["s(%d)" % i for i in range(n_src)]
+    nxt = [n_src]
+    counters = {}
+    instrs = []
+    avail = list(src)
+    creation = []       # state ops in creation order: (id, kind)
+
+    def fresh():
+        v = "s(%d)" % nxt[0]
+        nxt[0] += 1
+        return v
+
+    def mk(dis, inp, out=True, value=None):
+        k = counters.get(dis, 0)
+        counters[dis] = k + 1
+        ins = {"id": "%s_%d" % (dis, k), "opcode": OPC.get(dis, "00"), "disasm": dis, "inpt_sk": list(inp),
+               "outpt_sk": [fresh()] if out else [], "push": dis.startswith("PUSH"), "gas": SFS_GAS.get(dis, 3),
+               "commutative": dis in SFS_COMM, "storage": not out, "size": 1}
+        if value is not None:
+            ins["value"] = [value]
+            ins["size"] = 1 + max(1, (value.bit_length() + 7) // 8)
+        if dis in ("CALLER", "CALLVALUE", "TIMESTAMP", "ADDRESS"):
+            ins["id"] = dis
+        instrs.append(ins)
+        if out:
+            avail.append(ins["outpt_sk"][0])
+        return ins
+
+    def pick():
+        if not avail or rnd.random() < 0.25:
+            v = rnd.choice([0, 1, 2, 0x20, 0x40, 0x60, 0x80, 0xff, rnd.randrange(0, 300), rnd.getrandbits(64)])
+            if v == 0 and rnd.random() < 0.5:
+                return mk("PUSH0", [])["outpt_sk"][0]
+            return mk("PUSH", [], value=v)["outpt_sk"][0]
+        if rnd.random() < 0.4:
+            return rnd.choice(avail[-4:])
+        return rnd.choice(avail)
+
+    zeroary_done = set()
+    for _ in range(n_instr):
+        r = rnd.random()
+        if r < 0.45:
+            op = rnd.choice(["ADD", "MUL", "SUB", "DIV", "LT", "GT", "EQ", "AND", "OR", "XOR", "SHL", "SHR", "EXP"])
+            mk(op, [pick(), pick()])
+        elif r < 0.55:
+            mk(rnd.choice(["ISZERO", "NOT", "CALLDATALOAD", "BALANCE"]), [pick()])
+        elif r < 0.6:
+            z = rnd.choice(["CALLER", "CALLVALUE", "TIMESTAMP", "ADDRESS"])
+            if z not in zeroary_done:
+                zeroary_done.add(z)
+                mk(z, [])
+        elif r < 0.63:
+            mk("ADDMOD", [pick(), pick(), pick()])
+        elif r < 0.73:
+            ins = mk(rnd.choice(["MLOAD", "SLOAD"]), [pick()])
+            creation.append(ins)
+        elif r < 0.77:
+            ins = mk("KECCAK256", [pick(), pick()])
+            creation.append(ins)
+        else:
+            ins = mk(rnd.choice(["MSTORE", "SSTORE", "MSTORE", "SSTORE", "MSTORE8"]), [pick(), pick()], out=False)
+            creation.append(ins)
+    # target stack
+    n_tgt = rnd.randrange(0, 6 if not wide else 20)
+    tgt = []
+    for _ in range(n_tgt):
+        tgt.append(rnd.choice(avail) if avail else None)
+    tgt = [t for t in tgt if t is not None]
+    if src and rnd.random() < 0.5:
+        # keep some of the source stack at the bottom, as real blocks do
+        keep = src[rnd.randrange(0, len(src)):]
+        tgt = tgt + keep
+    # remove instructions whose output is never used (the front-end never emits those), iteratively
+    changed = True
+    while changed:
+        changed = False
+        used = set(tgt)
+        for ins in instrs:
+            used.update(ins["inpt_sk"])
+        for ins in list(instrs):
+            if ins["outpt_sk"] and ins["outpt_sk"][0] not in used:
+                instrs.remove(ins)
+                changed = True
+    live = {ins["id"] for ins in instrs}
+    creation = [c for c in creation if c["id"] in live]
+    # dependencies: acyclic by construction (creation order), same location only
+    mem, sto = [], []
+    for i, a in enumerate(creation):
+        for b in creation[i + 1:]:
+            ka = "s" if a["disasm"] in ("SLOAD", "SSTORE") else "m"
+            kb = "s" if b["disasm"] in ("SLOAD", "SSTORE") else "m"
+            if ka != kb:
+                continue
+            if a["outpt_sk"] and b["outpt_sk"]:
+                continue            # two reads are never ordered
+            if rnd.random() < 0.45:
+                (sto if ka == "s" else mem).append([a["id"], b["id"]])
+    vars_ = sorted(set(src) | {ins["outpt_sk"][0] for ins in instrs if ins["outpt_sk"]},
+                   key=lambda v: int(v[2:-1]))
+    S = {"init_progr_len": 4 * len(instrs) + 2 * len(tgt) + len(src) + 6, "max_progr_len": 200,
+         "max_sk_sz": len(vars_) + len(src) + 4, "vars": vars_, "src_ws": src, "tgt_ws": tgt,
+         "user_instrs": instrs, "current_cost": 1000, "storage_dependences": sto, "memory_dependences": mem,
+         "dependencies": sto + mem, "is_revert": False, "rules_applied": False, "rules": [],
+         "original_instrs": "", "min_length_instrs": 0, "min_length_bounds": 0, "min_length": 0}
+    return S
